@@ -77,8 +77,15 @@ def make_oracle(reference: dict[str, Any]) -> Oracle:
     def on_quiescent(h: Any) -> None:
         # remember, for the snapshot point, the retry state of everything not yet completed
         st = h.state
-        if st.get("resumed") or not h.runners:
+        if not h.runners:
             return
+        # the state recorded at the quiescent point just before a snapshot action is the snapshot state; with
+        # several snapshots in one execution the LAST one is judged
+        n = st.get("n_resumes", 0)
+        if n != getattr(h, "c12_seen_resumes", 0):
+            h.c12_seen_resumes = n
+            h.c12_inflight, h.c12_invs_before = h.c12_prev
+            h.c12_cats = sorted(set(getattr(h, "c12_cats", [])) | {k[2] for k in h.c12_inflight})
         r = h.runners[-1]
         infl = {}
         for name, ws in r.state.workers.items():
@@ -89,8 +96,7 @@ def make_oracle(reference: dict[str, Any]) -> Oracle:
         for _, _, t in r.scheduled_wakeups:
             if getattr(t, "type", "") == "add_event" and t.attempts:
                 infl[(t.step_name, getattr(t.event, "uid", None), "scheduled_retry")] = (t.attempts, dict(t.recovery_counts))
-        h.c12_inflight = infl
-        h.c12_invs_before = len(h.invocations)
+        h.c12_prev = (infl, len(h.invocations))
 
     def final(h: Any, e: Any, state: dict[str, Any]) -> None:
         hd = state["hd"]
@@ -101,7 +107,7 @@ def make_oracle(reference: dict[str, Any]) -> Oracle:
         if not resumed:
             return
         infl = getattr(h, "c12_inflight", {})
-        cats = sorted({k[2] for k in infl})
+        cats = list(getattr(h, "c12_cats", []))  # union over all snapshots of the execution
         w["pending_at_snapshot"] = cats
         if e.stuck and out[0] == "pending":
             h.violate("resumed_run_never_finishes", w, f"resumed run is stuck; pending at snapshot: {sorted(infl)}")
@@ -207,6 +213,21 @@ def specs(tier: str) -> list[Spec]:
     if not q:
         sp += [Spec("fan(4,2)", {"family": "fan"}, lambda: wf_fan(4, 2), resume=True, max_dev=4),
                Spec("recover(3)", {"family": "recover"}, lambda: wf_recover(3), resume=True)]
+        # two pauses in one execution (the second snapshot is taken from an already resumed run)
+        sp += [Spec("chain3/2x", {"family": "chain", "resumes": 2}, lambda: wf_chain(3), resume=True, resume_count=2),
+               Spec("fan(2,1)/2x", {"family": "fan", "resumes": 2}, lambda: wf_fan(2, 1), resume=True, resume_count=2),
+               Spec("fan(3,2)/2x", {"family": "fan", "resumes": 2}, lambda: wf_fan(3, 2), resume=True, resume_count=2, max_dev=5),
+               Spec("retry_zero/2x", {"family": "retry_zero", "resumes": 2}, lambda: wf_retry_chain(0), resume=True, resume_count=2),
+               Spec("retry_delay/2x", {"family": "retry_delay", "resumes": 2}, lambda: wf_retry_chain(2.0), resume=True, resume_count=2),
+               Spec("retry_exhaust_delay/2x", {"family": "retry_exhaust", "resumes": 2},
+                    lambda: wf_retry_chain(1.0, fails=5, budget=3), resume=True, resume_count=2),
+               Spec("fan_retry(2,2,zero)/2x", {"family": "fan_retry", "resumes": 2}, lambda: wf_fan(2, 2, "zero", fail_uids=(0,)),
+                    resume=True, resume_count=2, max_dev=5),
+               Spec("recover(2)/2x", {"family": "recover", "resumes": 2}, lambda: wf_recover(2), resume=True, resume_count=2),
+               Spec("wait(w=1,n=1)/2x", {"family": "wait", "resumes": 2}, lambda: wf_wait(1, n=1), scripts=resp_scripts(1),
+                    resume=True, resume_count=2, max_dev=5),
+               Spec("wait(w=2,n=2)/2x", {"family": "wait", "resumes": 2}, lambda: wf_wait(2, n=2), scripts=resp_scripts(2),
+                    resume=True, resume_count=2, max_dev=4)]
     return sp
 
 
